@@ -405,7 +405,7 @@ def run(chk: core.Check):
                 "runs with kernel doubles over schedule options; fixed: every n_steps up to a bound. distinct = different "
                 "(options, population / seed); non-trivial = at least one schedule step taken")
     chk.trusted += ["the MCMC kernels are test doubles (random-walk Metropolis); numpy exp/log"]
-    check_fixed_table(chk, 300 if quick else 5000)
+    check_fixed_table(chk, 300 if quick else 2000)
     units = [gen_unit(r, i, chk.tier) for i in range(400 if quick else 20000)]
     for i in range(0, len(units), 400):
         check_units(chk, units[i:i + 400])
